@@ -18,9 +18,9 @@ from ..core.engine import Inapplicable, seed_lib_rng
 from ..core.world import World, pick, swarm_weights
 from .c01 import same
 
-DRAWINGS = ["square", "pentagon", "square_hole", "two_apart", "island", "three_nested", "circle", "circle_in_square", "stadium", "square_and_circle", "concave", "c_slot", "dshape", "lens", "plate_d_and_lens", "c_slot_island", "thin_c_around_bore", "thin_c_and_block"]
-READS = ["paths", "discrete", "polygons_closed", "polygons_full", "area", "length", "is_closed", "body_count", "root", "enclosure_directed", "bounds", "extents", "identifier_hash"]
-OPS = ["read", "transform", "merge_vertices", "copy", "cache_clear", "reverse_entity", "roundtrip", "read_all"]
+DRAWINGS = ["square", "pentagon", "square_hole", "two_apart", "island", "three_nested", "circle", "circle_in_square", "stadium", "square_and_circle", "concave", "c_slot", "dshape", "lens", "plate_d_and_lens", "c_slot_island", "thin_c_around_bore", "thin_c_and_block", "two_frames_island", "five_frames", "keyhole", "plate_keyhole"]
+READS = ["paths", "discrete", "polygons_closed", "polygons_full", "area", "length", "is_closed", "body_count", "root", "enclosure_directed", "bounds", "extents", "identifier_hash", "enclosure_shell", "split"]
+OPS = ["read", "transform", "merge_vertices", "copy", "cache_clear", "reverse_entity", "roundtrip", "read_all", "process"]
 
 
 def shoelace(P):
@@ -87,7 +87,30 @@ def make_drawing(name, salt):
         return [{"kind": "lens", "c": np.array([0.0, 0.0]), "r": 1.0, "depth": 0}]
     if name == "plate_d_and_lens":
         return [sq((0, 0), 5.0, 0), {"kind": "dshape", "c": np.array([-2.0, 0.5]), "r": 1.2, "depth": 1}, {"kind": "lens", "c": np.array([2.2, -0.5]), "r": 1.0, "depth": 1}]
+    if name == "two_frames_island":
+        # two frames side by side, one of them with an island: holes must go to the shell that contains them, not to every shell one level up
+        return [sq((-5, 0), 3.0, 0), sq((-5, 0), 2.0, 1), sq((-4.9, 0.1), 1.0, 2), sq((5, 0), 3.0, 0), sq((5.2, 0), 1.7, 1)]
+    if name == "five_frames":
+        out = []
+        for i in range(5):
+            cx = -16.0 + 8.0 * i
+            out += [sq((cx, 0), 3.0, 0), sq((cx + 0.1 * i, 0), 1.0 + 0.2 * i, 1)]
+        return out + [sq((-16.0, 0.05), 0.4, 2)]
+    if name == "keyhole":
+        # a 270 degree arc closed by its chord
+        return [{"kind": "keyhole", "c": np.array([0.2, -0.1]), "r": 1.2, "depth": 0}]
+    if name == "plate_keyhole":
+        return [sq((0, 0), 4.0, 0), {"kind": "keyhole", "c": np.array([0.5, 0.3]), "r": 1.2, "depth": 1}]
     raise ValueError(name)
+
+
+KEYHOLE = (-0.75 * math.pi + 0.37, 0.75 * math.pi + 0.37)  # 270 degrees; 4.712 rad is not a multiple of the 0.08 rad segment angle
+DSHAPE = (-1.03, 2.2)
+LENS = (0.2, 3.3)
+
+
+def _mid(a0, a1, t):
+    return a0 + t * (a1 - a0)
 
 
 def present(curves, pr):
@@ -124,12 +147,19 @@ def present(curves, pr):
                     ents.append(("Arc", [base + a, base + a + 1, base + (a + 2) % 6]))
         elif c["kind"] == "dshape":
             # an arc whose end points are joined directly by a two-point chord: a loop of exactly two entities
-            ang = np.array([-1.03, 0.585, 2.2])  # span 3.23 rad: not a multiple of the 0.08 rad segment angle (no knife-edge segment count)
+            # span 3.23 rad: not a multiple of the 0.08 rad segment angle (no knife-edge segment count); the middle control point may sit anywhere on the arc
+            ang = np.array([DSHAPE[0], _mid(DSHAPE[0], DSHAPE[1], pr.get("arc_mid", 0.5)), DSHAPE[1]])
+            V.extend((c["c"] + c["r"] * np.column_stack([np.cos(ang), np.sin(ang)])).tolist())
+            ents += [("Arc", [base, base + 1, base + 2]), ("Line", [base + 2, base])]
+        elif c["kind"] == "keyhole":
+            # more than 180 degrees: with an off-centre control point one of the two sections alone exceeds 180 degrees
+            ang = np.array([KEYHOLE[0], _mid(KEYHOLE[0], KEYHOLE[1], pr.get("arc_mid", 0.5)), KEYHOLE[1]])
             V.extend((c["c"] + c["r"] * np.column_stack([np.cos(ang), np.sin(ang)])).tolist())
             ents += [("Arc", [base, base + 1, base + 2]), ("Line", [base + 2, base])]
         elif c["kind"] == "lens":
             # a full circle made of exactly two arcs sharing both end points
-            ang = np.array([0.2, 1.7, 3.3, 5.0])
+            t = pr.get("arc_mid", 0.5)
+            ang = np.array([LENS[0], _mid(LENS[0], LENS[1], t), LENS[1], _mid(LENS[1], LENS[0] + 2 * math.pi, t)])
             V.extend((c["c"] + c["r"] * np.column_stack([np.cos(ang), np.sin(ang)])).tolist())
             ents += [("Arc", [base, base + 1, base + 2]), ("Arc", [base + 2, base + 3, base])]
         else:
@@ -168,6 +198,50 @@ def present(curves, pr):
         else:
             objs.append(Arc(p))
     return V2, objs
+
+
+def present_dxf(curves, pr):
+    """The same drawing as a hand-written DXF: one LWPOLYLINE per curve, arcs as bulges (tan of a quarter of the included angle,
+    negative clockwise), seeded start vertex, direction and closing style. Another program's way of presenting the boundary."""
+    rs = np.random.RandomState(pr["salt"] % (2**32))
+    out = ["0\nSECTION\n2\nHEADER\n9\n$INSUNITS\n70\n1\n0\nENDSEC\n0\nSECTION\n2\nENTITIES\n"]
+
+    def on(c, a):
+        return c["c"] + c["r"] * np.array([math.cos(a), math.sin(a)])
+
+    order = rs.permutation(len(curves)) if pr.get("permute", True) else np.arange(len(curves))
+    for ci in order:
+        c = curves[int(ci)]
+        if c["kind"] == "poly":
+            P = [tuple(x) for x in c["pts"]]
+            B = [0.0] * len(P)
+        elif c["kind"] == "circle":
+            if pr.get("closed_arc"):
+                out.append("0\nCIRCLE\n8\n0\n10\n%r\n20\n%r\n40\n%r\n" % (float(c["c"][0]), float(c["c"][1]), float(c["r"])))
+                continue
+            P, B = [tuple(on(c, 0.3)), tuple(on(c, 0.3 + math.pi))], [1.0, 1.0]
+        elif c["kind"] in ("dshape", "keyhole"):
+            a0, a1 = DSHAPE if c["kind"] == "dshape" else KEYHOLE
+            P, B = [tuple(on(c, a0)), tuple(on(c, a1))], [math.tan((a1 - a0) / 4), 0.0]
+        elif c["kind"] == "lens":
+            P, B = [tuple(on(c, LENS[0])), tuple(on(c, LENS[1]))], [math.tan((LENS[1] - LENS[0]) / 4), math.tan((LENS[0] + 2 * math.pi - LENS[1]) / 4)]
+        else:
+            w, r, cx, cy = c["w"], c["r"], c["c"][0], c["c"][1]
+            P, B = [(cx - w / 2, cy - r), (cx + w / 2, cy - r), (cx + w / 2, cy + r), (cx - w / 2, cy + r)], [0.0, 1.0, 0.0, 1.0]
+        n = len(P)
+        k = int(rs.randint(0, n))
+        P, B = P[k:] + P[:k], B[k:] + B[:k]
+        if rs.uniform() < pr.get("reverse_p", 0.5):
+            P = P[::-1]
+            B = [-B[n - 2 - j] for j in range(n - 1)] + [-B[n - 1]]
+        explicit = bool(pr.get("dup_vertices")) and all(b == 0.0 for b in B[-1:])
+        if explicit:
+            P, B = P + [P[0]], B + [0.0]
+        out.append("0\nLWPOLYLINE\n8\n0\n90\n%d\n70\n%d\n" % (len(P), 0 if explicit else 1))
+        for (x, y), b in zip(P, B):
+            out.append("10\n%r\n20\n%r\n" % (float(x), float(y)) + ("42\n%r\n" % float(b) if b else ""))
+    out.append("0\nENDSEC\n0\nEOF\n")
+    return "".join(out).encode("ascii")
 
 
 def model_values(curves, M=None):
@@ -226,7 +300,8 @@ class C14(World):
         for _ in range(cfg["n_present"]):
             dup = rng.random() < 0.25
             ops.append({"op": "present", "salt": rng.randrange(2**31), "max_split": rng.choice([1, 2, 3, 5]), "permute": rng.random() < 0.85, "reverse_p": rng.choice([0.0, 0.5, 1.0]),
-                        "permute_vertices": rng.random() < 0.5, "dup_vertices": dup, "process": True if dup else rng.random() < 0.5, "closed_arc": rng.random() < 0.3, "rs": rng.randrange(2**31)})
+                        "permute_vertices": rng.random() < 0.5, "dup_vertices": dup, "process": rng.random() < (0.6 if dup else 0.5), "closed_arc": rng.random() < 0.3, "rs": rng.randrange(2**31),
+                        "arc_mid": rng.choice([0.5, 0.5, 0.5, 0.05, 0.15, 0.3, 0.85, 0.95]), "via": "dxf_bulge" if rng.random() < 0.15 else "entities"})
             for _ in range(cfg["n_ops"]):
                 k = pick(rng, cfg["weights"])
                 op = {"op": k, "rs": rng.randrange(2**31), "i": rng.randrange(1000)}
@@ -286,10 +361,24 @@ class C14(World):
                 if curves is None:
                     raise Inapplicable()
                 if k == "present":
-                    V, ents = present(curves, op)
-                    path = trimesh.path.Path2D(entities=ents, vertices=V, process=bool(op["process"]))
+                    state.pop("imported", None)
+                    state["unmerged"] = False
+                    if op.get("via") == "dxf_bulge":
+                        try:
+                            path = trimesh.load_path(io.BytesIO(present_dxf(curves, op)), file_type="dxf")
+                        except (KeyboardInterrupt, SystemExit, MemoryError):
+                            raise
+                        except BaseException as e:
+                            ctx.fail("exchange", "dxf-bulge-raises", f"{type(e).__name__}: {e}")
+                        state["imported"] = "dxf"
+                    else:
+                        V, ents = present(curves, op)
+                        path = trimesh.path.Path2D(entities=ents, vertices=V, process=bool(op["process"]))
+                        # polyline ends with their own copies of the vertices and no processing: the boundary is not connected yet; reads are
+                        # made (and memoised) but judged only after merge_vertices / process has joined it
+                        state["unmerged"] = bool(op["dup_vertices"]) and not bool(op["process"])
                     M_total = np.eye(3)
-                    state["pclass"] = f"split{op['max_split']}-perm{int(op['permute'])}-rev{op['reverse_p']}-dup{int(op['dup_vertices'])}-proc{int(op['process'])}"
+                    state["pclass"] = ("dxfbulge-" if op.get("via") == "dxf_bulge" else "") + f"mid{op.get('arc_mid', 0.5)}-split{op['max_split']}-perm{int(op['permute'])}-rev{op['reverse_p']}-dup{int(op['dup_vertices'])}-proc{int(op['process'])}"
                     state["last"] = "present"
                     state["scale_len"], state["scale_area"] = 1.0, 1.0
                     ctx.count("op:present")
@@ -301,6 +390,10 @@ class C14(World):
                 if k == "read":
                     self._check_all(path, curves, M_total, state, first, ctx, op["names"])
                 elif k == "read_all":
+                    if state.get("unmerged"):
+                        (path.process if op["rs"] % 2 else path.merge_vertices)()
+                        state["unmerged"] = False
+                        state["last"] = "process" if op["rs"] % 2 else "merge_vertices"
                     self._check_all(path, curves, M_total, state, first, ctx, READS)
                 elif k == "transform":
                     M = self._matrix(op, state["polygonal"])
@@ -312,6 +405,12 @@ class C14(World):
                 elif k == "merge_vertices":
                     path.merge_vertices()
                     state["last"] = "merge_vertices"
+                    state["unmerged"] = False
+                elif k == "process":
+                    path.process()
+                    state["last"] = "process"
+                    state["unmerged"] = False
+                    ctx.reach(state["name"], state["pclass"], "process", "paths" in memo, "discrete" in memo)
                 elif k == "copy":
                     path = path.copy()
                     state["last"] = "copy"
@@ -329,6 +428,8 @@ class C14(World):
                     ctx.count("fault:reverse_entity_in_place")
                     ctx.reach(state["name"], state["pclass"], "reverse_entity", "paths" in memo, "discrete" in memo)
                 elif k == "roundtrip":
+                    if state.get("unmerged"):
+                        raise Inapplicable()
                     path = self._roundtrip(path, op["fmt"], ctx)
                     state["last"] = "roundtrip:" + op["fmt"]
                     state["imported"] = op["fmt"]
@@ -368,6 +469,10 @@ class C14(World):
                     out[n] = len(out[n])
             elif n == "polygons_full":
                 out[n] = signature(path)
+            elif n == "enclosure_shell":
+                out[n] = sorted(len(v) for v in path.enclosure_shell.values())
+            elif n == "split":
+                out[n] = sorted(round(float(b.area), 6) for b in path.split())
             elif n in ("area", "length"):
                 out[n] = float(getattr(path, n))
             elif n in ("is_closed", "body_count"):
@@ -382,6 +487,16 @@ class C14(World):
         import trimesh
 
         if not names:
+            return
+        if state.get("unmerged"):
+            # the boundary is not joined yet: read (so the values are memoised before the join) without judging
+            try:
+                self._observe(path, names)
+            except (KeyboardInterrupt, SystemExit, MemoryError):
+                raise
+            except BaseException as e:
+                ctx.count("exc:" + type(e).__name__)
+            ctx.count("probe:read-while-unmerged")
             return
         label = f"{state['name']} [{state['pclass']}] after {state['last']}"
         imported = state.get("imported")
@@ -415,11 +530,25 @@ class C14(World):
             fail("body_count", f"{got['body_count']} != {n_shells}")
         if "is_closed" in got and got["is_closed"] is not True:
             fail("is_closed", "a drawing of closed curves reports is_closed False")
+        want_holes = sorted(sum(1 for h in curves if h["depth"] == c["depth"] + 1 and self._inside(h, c)) for c in curves if c["depth"] % 2 == 0)
+        if "enclosure_directed" in got:
+            # (the graph trimesh documents: an edge from every shell to each hole directly inside it)
+            want_edges = sum(1 for c in curves for h in curves if c["depth"] % 2 == 0 and h["depth"] == c["depth"] + 1 and self._inside(h, c))
+            if got["enclosure_directed"] != want_edges:
+                fail("nesting", f"enclosure_directed has {got['enclosure_directed']} shell -> hole edges != {want_edges} holes directly inside a shell")
+        if "enclosure_shell" in got and got["enclosure_shell"] != want_holes:
+            fail("nesting", f"enclosure_shell: holes per shell {got['enclosure_shell']} != {want_holes}")
+        if "split" in got:
+            if len(got["split"]) != n_shells:
+                fail("split", f"split() gave {len(got['split'])} bodies != {n_shells} shells")
+            if mv["polygonal"]:
+                want_body = sorted(round((abs(shoelace(c["pts"])) - sum(abs(shoelace(h["pts"])) for h in curves if h["depth"] == c["depth"] + 1 and self._inside(h, c))) * det, 6) for c in curves if c["depth"] % 2 == 0)
+                if same(np.array(got["split"]), np.array(want_body), max(tol, 2e-6) * S * S, "body areas"):
+                    fail("split", f"areas of the split bodies {got['split']} != {want_body}")
         if "polygons_full" in got:
             sig = got["polygons_full"]
             if len(sig) != n_shells:
                 fail("polygons_full", f"{len(sig)} full polygons != {n_shells} shells")
-            want_holes = sorted(sum(1 for h in curves if h["depth"] == c["depth"] + 1 and self._inside(h, c)) for c in curves if c["depth"] % 2 == 0)
             if sorted(h for _, h in sig) != want_holes:
                 fail("nesting", f"holes per shell {sorted(h for _, h in sig)} != {want_holes}")
             if mv["polygonal"]:
@@ -468,7 +597,7 @@ class C14(World):
         def poly(cv):
             if cv["kind"] == "poly":
                 return Polygon(cv["pts"])
-            if cv["kind"] in ("circle", "lens", "dshape"):
+            if cv["kind"] in ("circle", "lens", "dshape", "keyhole"):
                 return Point(cv["c"]).buffer(cv["r"])
             return Point(cv["c"]).buffer(cv["r"] + cv["w"] / 2)
 
